@@ -228,4 +228,55 @@ theorem similar_symm' [DecidableEq α] {l r : LazyView ν α} (hl : l.Valid) (hr
   · rw [← materialise_congr (reordered_congr he (r.shape.map (·.1)))]
     exact materialise_congr (reordered_reordered_back hr _ hp)
 
+/-! ### the executable form of `Similar` -/
+
+theorem mem_insertEverywhere (x : ν) (ys p : List ν) :
+    p ∈ insertEverywhere x ys ↔ ∃ a b, ys = a ++ b ∧ p = a ++ x :: b := by
+  induction ys generalizing p with
+  | nil =>
+    simp only [insertEverywhere, List.mem_singleton]
+    constructor
+    · rintro rfl; exact ⟨[], [], rfl, rfl⟩
+    · rintro ⟨a, b, h, rfl⟩
+      have := List.append_eq_nil_iff.1 h.symm
+      rw [this.1, this.2]; rfl
+  | cons y ys ih =>
+    simp only [insertEverywhere, List.mem_cons, List.mem_map]
+    constructor
+    · rintro (rfl | ⟨q, hq, rfl⟩)
+      · exact ⟨[], y :: ys, rfl, rfl⟩
+      · obtain ⟨a, b, rfl, rfl⟩ := (ih q).1 hq
+        exact ⟨y :: a, b, rfl, rfl⟩
+    · rintro ⟨a, b, h, rfl⟩
+      cases a with
+      | nil => left; simp at h; rw [← h]; rfl
+      | cons a0 as =>
+        simp only [List.cons_append, List.cons.injEq] at h
+        obtain ⟨rfl, rfl⟩ := h
+        right
+        exact ⟨as ++ x :: b, (ih _).2 ⟨as, b, rfl, rfl⟩, rfl⟩
+
+theorem mem_perms_iff (l p : List ν) : p ∈ perms l ↔ p.Perm l := by
+  induction l generalizing p with
+  | nil => simp [perms]
+  | cons x xs ih =>
+    simp only [perms, List.mem_flatMap]
+    constructor
+    · rintro ⟨q, hq, hp⟩
+      obtain ⟨a, b, rfl, rfl⟩ := (mem_insertEverywhere x q p).1 hp
+      exact List.perm_middle.trans (((ih _).1 hq).cons x)
+    · intro hp
+      have hx : x ∈ p := hp.mem_iff.2 (by simp)
+      obtain ⟨a, b, rfl⟩ := List.append_of_mem hx
+      have : (a ++ b).Perm xs := (List.perm_middle.symm.trans hp).cons_inv
+      exact ⟨a ++ b, (ih _).2 this, (mem_insertEverywhere x _ _).2 ⟨a, b, rfl, rfl⟩⟩
+
+/-- trying every ordering (what the driver evaluates) decides `Similar` -/
+theorem similarB_iff [DecidableEq α] (l r : LazyView ν α) : similarB l r = true ↔ Similar l r := by
+  unfold similarB Similar
+  simp only [List.any_eq_true, Bool.and_eq_true, decide_eq_true_eq, mem_perms_iff]
+  constructor
+  · rintro ⟨names, hp, _, hm⟩; exact ⟨names, hp, hm⟩
+  · rintro ⟨names, hp, hm⟩; exact ⟨names, hp, congrArg TVal.shape hm, hm⟩
+
 end EasyMl
